@@ -390,6 +390,24 @@ def lazy_checks(stream, msgs, rng, rec):
                     break
         except Exception as ex:
             rec.count(f"lazy_{fe_name}_decode_error")
+        # the container cut right behind the pair of carried byte k: the same events and the same end as the carried
+        # prefix decoded directly, in both modes (every field complete in the prefix is delivered, then 'depleted')
+        ks = sorted({rng.randrange(len(carried)) for _ in range(6)} | {0, len(carried) - 2}) if len(carried) > 2 else []
+        for k in ks:
+            if k < 0 or k >= len(ends):
+                continue
+            cut_text = text[: ends[k]]
+            for strict in (True, False):
+                want = TR.run("CommandResponseStream", carried[: k + 1], strict=strict)
+                got = TR.run("CommandResponseStream", carried[: k + 1], strict=strict, front=fe, container=cut_text)
+                rec.count(f"lazy_{fe_name}_cut_runs")
+                a = [(e.kind, e.path, e.tname, e.value) if e.kind == "M" else ("W", e.err["cls"]) for e in want.events]
+                b = [(e.kind, e.path, e.tname, e.value) if e.kind == "M" else ("W", e.err["cls"]) for e in got.events]
+                if a != b or want.outcome[0] != got.outcome[0]:
+                    rec.violation("lazy-front-end", f"{fe_name}:cut", f"{fe_name} text cut behind carried byte {k} ({'strict' if strict else 'warn'}): {len(b)} events / {got.outcome[0]} "
+                                                                      f"{got.outcome[1:2] if got.outcome[0] == 'internal' else ''}, the carried prefix decoded directly gives {len(a)} events / {want.outcome[0]}",
+                                  dict(lazy=fe_name, t="CommandResponseStream", d=carried.hex(), container=text.hex()))
+                    break
     # a real buffered file object (what the command line hands over)
     import os
     import tempfile
